@@ -1669,6 +1669,12 @@ class IrregularParameterGrid(object):
         scalar_input = np.isscalar(value)
 
         idx = np.searchsorted(self.grid, value, side='right') - 1
+        if np.any(idx < 0):
+            # A negative index would silently select a grid point from the end
+            # of the grid.
+            raise IndexError(
+                'There is no grid point lower than or equal to the given '
+                'value!')
         gp = self.grid[idx]
 
         if scalar_input:
